@@ -1024,14 +1024,17 @@ func (m *Nitro) StoreToDisk(dir string, snap *Snapshot, concurr int, itmCallback
 			for id, dwr := range deltaWriters {
 				deltaChecksums[id] = dwr.Checksum()
 				deltaWriters[id] = nil
+				verifYield(VerifPtStoreStep)
 				if cerr := dwr.Close(); cerr != nil {
 					return cerr
 				}
 			}
+			verifYield(VerifPtStoreStep)
 			bs, _ := json.Marshal(deltaFiles)
 			if werr := ioutil.WriteFile(filepath.Join(deltadir, "files.json"), bs, 0660); werr != nil {
 				return werr
 			}
+			verifYield(VerifPtStoreStep)
 			bs, _ = json.Marshal(deltaChecksums)
 			return ioutil.WriteFile(filepath.Join(deltadir, "checksums.json"), bs, 0660)
 		}
@@ -1046,6 +1049,7 @@ func (m *Nitro) StoreToDisk(dir string, snap *Snapshot, concurr int, itmCallback
 		if err := w.WriteItem(itm); err != nil {
 			return err
 		}
+		verifYield(VerifPtStoreItem)
 
 		if itmCallback != nil {
 			itmCallback(&ItemEntry{itm: itm, n: nil})
@@ -1065,6 +1069,7 @@ func (m *Nitro) StoreToDisk(dir string, snap *Snapshot, concurr int, itmCallback
 			for id, wr := range writers {
 				checksums[id] = wr.Checksum()
 				writers[id] = nil
+				verifYield(VerifPtStoreStep)
 				if cerr := wr.Close(); cerr != nil && err == nil {
 					err = cerr
 				}
@@ -1073,11 +1078,14 @@ func (m *Nitro) StoreToDisk(dir string, snap *Snapshot, concurr int, itmCallback
 		// The data manifest is written last: a directory without it does not
 		// load, a directory with it is complete.
 		if err == nil {
+			verifYield(VerifPtStoreStep)
 			bs, _ := json.Marshal(files)
 			err = ioutil.WriteFile(filepath.Join(datadir, "files.json"), bs, 0660)
 			if err == nil {
+				verifYield(VerifPtStoreStep)
 				bs, _ = json.Marshal(checksums)
 				err = ioutil.WriteFile(filepath.Join(datadir, "checksums.json"), bs, 0660)
+				verifYield(VerifPtStoreStep)
 			}
 		}
 	}
